@@ -3,6 +3,7 @@
 //! note: narrow claim for C09 (holding back what depends on an unfinished monitor update): FundedChannel::monitor_updating_paused adds to what is held and never drops anything held earlier; monitor_updating_restored releases exactly the held forwards / failures / finalized claims and clears them, releases a revoke_and_ack or a commitment update only if one was held (none while the peer is disconnected) and clears the flags; on the ChainMonitor side an update whose persistence is in progress is recorded as pending, a completion removes exactly that update, and the final status of update_channel is Completed only if the persister completed and the channel is not post-close
 //! trusted: monitor_updating_paused is extracted whole; monitor_updating_restored, ChainMonitor::channel_monitor_updated and ChainMonitor::update_channel_internal are deep R15 slices (the statements named in the note); env: FundedChannel / ChannelContext are field skeletons; the held items are opaque; get_last_revoke_and_ack / get_last_commitment_update_for_send are external_body with unconstrained results; ChannelState is a two-flag skeleton (monitor update in progress, peer disconnected) with the macro-generated accessors' meaning; enum ChannelMonitorUpdateStatus extracted
 //! trusted: R15 (deep slices): the eight places in channel.rs where a FundedChannel increments latest_monitor_update_id and builds a ChannelMonitorUpdate (get_update_fulfill_htlc, splice_initial_commitment_signed, commitment_signed_update_monitor, revoke_and_ack, shutdown, maybe_promote_splice_funding, build_commitment_no_status_check, get_shutdown): the increment statement and the `update_id:` expression, verbatim; force_shutdown (id after the last unblocked update) and free_holding_cell_htlcs (id + 1, merged into the next update) are not sliced
+//! trusted: R15 (deep slice): ChannelManager::handle_channel_resumption: the two function-local macros handle_cs! / handle_raa! and the match on commitment_order that invokes them, verbatim (the macro definitions are part of the slice); MessageSendEvent is a two-variant skeleton; channel_ready / tx_signatures / announcement_sigs / forwards handling around it is dropped and not claimed
 //! trusted: R9: `a |= b;` on bools with a side-effect-free right operand is written `a = a || b;` (Verus has no non-short-circuit `|` on bools); R8: `v.extend(w)` -> vec_extend (v becomes v followed by w); R3: log statements removed; R10: arguments of get_last_revoke_and_ack (a path callback and the logger) and of get_last_commitment_update_for_send (the logger) dropped
 //! assume: nothing here decides *when* these functions are called: that every state-advancing handler ends in monitor_updating_paused, that ChannelManager calls monitor_updating_restored only after every in-flight update completed, and the per-channel update-id order are not claimed
 use vstd::prelude::*;
@@ -215,6 +216,34 @@ impl FundedChannel {
     r == old(self).context.latest_monitor_update_id + 1, final(self).context.latest_monitor_update_id == r,
 //@end
 }
+// ---- ChannelManager::handle_channel_resumption: the order in which the two released messages go out ---------------
+#[derive(Clone, Copy)] pub struct PublicKey { pub id: u64 }
+#[derive(Clone, Copy)] pub struct ChannelId { pub id: u64 }
+pub enum MessageSendEvent { UpdateHTLCs { node_id: PublicKey, channel_id: ChannelId, updates: CommitmentUpdate }, SendRevokeAndACK { node_id: PublicKey, msg: RevokeAndACK } }
+pub struct ResumedCtx { pub id: ChannelId }
+impl ResumedCtx { #[verifier::external_body] pub fn channel_id(&self) -> (r: ChannelId) ensures r == self.id { unimplemented!() } }
+pub struct ResumedChannel { pub context: ResumedCtx }
+pub open spec fn cs_event(cu: Option<CommitmentUpdate>, n: PublicKey, c: ChannelId) -> Seq<MessageSendEvent> { match cu { Some(u) => seq![MessageSendEvent::UpdateHTLCs { node_id: n, channel_id: c, updates: u }], None => Seq::empty() } }
+pub open spec fn raa_event(raa: Option<RevokeAndACK>, n: PublicKey) -> Seq<MessageSendEvent> { match raa { Some(r) => seq![MessageSendEvent::SendRevokeAndACK { node_id: n, msg: r }], None => Seq::empty() } }
+//@extract lightning/src/ln/channelmanager.rs :: impl ChannelManager :: fn handle_channel_resumption
+//@slice R15
+    macro_rules! handle_cs { $a:any } macro_rules! handle_raa { $b:any } match commitment_order { $arms:any }
+//@with
+    fn send_released_messages_in_order(pending_msg_events: &mut Vec<MessageSendEvent>, channel: &ResumedChannel, raa: Option<RevokeAndACK>, commitment_update: Option<CommitmentUpdate>, commitment_order: RAACommitmentOrder, counterparty_node_id: PublicKey) {
+        macro_rules! handle_cs { $a }
+        macro_rules! handle_raa { $b }
+        match commitment_order { $arms }
+    }
+//@ensures P C09 the-released-commitment-update-and-revoke-and-ack-go-out-exactly-once-each-in-the-order-the-channel-recorded
+    final(pending_msg_events)@ =~= old(pending_msg_events)@ + (match commitment_order {
+        RAACommitmentOrder::CommitmentFirst => cs_event(commitment_update, counterparty_node_id, channel.context.id) + raa_event(raa, counterparty_node_id),
+        RAACommitmentOrder::RevokeAndACKFirst => raa_event(raa, counterparty_node_id) + cs_event(commitment_update, counterparty_node_id, channel.context.id),
+    }),
+//@mutant revoke_and_ack_sent_first_regardless
+    RAACommitmentOrder::CommitmentFirst => { handle_cs!(); handle_raa!(); },
+//@with
+    RAACommitmentOrder::CommitmentFirst => { handle_raa!(); handle_cs!(); },
+//@end
 // ---- ChainMonitor ------------------------------------------------------------------------------------------------
 //@extract lightning/src/chain/mod.rs :: enum ChannelMonitorUpdateStatus
 //@end
